@@ -1,13 +1,19 @@
-import Nstd.Avl.LemmasHintM2
-import Nstd.Avl.LemmasHeight
+import Nstd.Avl.LemmasProps
 /-
   Property C01 — Map and MultiMap stay sorted, complete and logarithmically deep.
 
   `run multi ops` is the state of the model (Model.lean) of `Map` (`multi = false`) or `MultiMap`
   (`multi = true`) after the operation history `ops` (any list of plain / hinted inserts, removals
   by key / iterator, removeFront/removeBack, clear, lookups; an operation the container rejects
-  leaves the state unchanged).  `abs s` is the in-order sequence of keys/values of the tree.
-  All theorems quantify over every history, i.e. over every reachable tree shape.
+  leaves the state unchanged).  `Reach multi s` additionally closes the reachable states under
+  copy assignment and bulk insert between two Maps.  `abs s` is the in-order sequence of
+  keys/values of the tree; `iter_run` shows it is what iteration `begin()…end()` yields.
+  All theorems quantify over every history, i.e. over every reachable tree shape; keys are `Int`.
+
+  Not covered by theorems (only by the correspondence run of tools/areas/avl.py): the key
+  comparison counts of insert / remove / count (the model computes them, no theorem bounds them),
+  and the free-list order of item ids.  Out of scope of C01: self-assignment, copies of MultiMap
+  (defects D2/D5, property C04), allocation failure.
 -/
 namespace Nstd.Avl
 open Tree
@@ -24,6 +30,14 @@ structure Inv (s : St) : Prop where
   order : s.order = ids s.t
   /-- item ids (addresses) are pairwise distinct and none of them is on the free list -/
   nodup : (ids s.t ++ s.free).Nodup
+
+/-- states reachable by histories over several containers: ops on one container, copy assignment
+    `dst = src` and bulk insert `dst.insert(src)` between two different Maps -/
+inductive Reach : Bool → St → Prop
+  | init (m : Bool) : Reach m (St.init m)
+  | step {m : Bool} {s : St} (op : Op) : Reach m s → Reach m (step' s op)
+  | assign {d s : St} : Reach false d → Reach false s → Reach false (d.assignFrom s).1
+  | insertAll {d s : St} : Reach false d → Reach false s → Reach false (d.insertAll s).1
 
 theorem invT_run (multi : Bool) (ops : List Op) : InvT (run multi ops) ∧ (run multi ops).multi = multi := by
   unfold run
@@ -57,43 +71,69 @@ theorem invO_run (multi : Bool) (ops : List Op) : InvO (run multi ops) := by
       | some r => exact ⟨(step_invT s hI op r h).1, step_invO s hI hO op r h⟩
     exact ih _ this.1 this.2
 
-/-- **Invariant.**  After any history the tree is an AVL-balanced search tree whose stored
-    height/slope fields are correct, the size counter is the number of entries and the prev/next
-    list threads exactly the in-order sequence of the tree. -/
-theorem inv_run (multi : Bool) (ops : List Op) : Inv (run multi ops) := by
-  obtain ⟨h, hm⟩ := invT_run multi ops
-  have hO := invO_run multi ops
+theorem reach_run (multi : Bool) (ops : List Op) : Reach multi (run multi ops) := by
+  unfold run
+  suffices h : ∀ s, Reach multi s → Reach multi (ops.foldl step' s) from h _ (Reach.init multi)
+  induction ops with
+  | nil => intro s hs; exact hs
+  | cons op ops ih => intro s hs; exact ih _ (Reach.step op hs)
+
+theorem invs_reach {multi : Bool} {s : St} (hr : Reach multi s) : InvT s ∧ InvO s ∧ s.multi = multi := by
+  induction hr with
+  | init m => exact ⟨invT_init m, invO_init m, rfl⟩
+  | step op _ ih =>
+    obtain ⟨hI, hO, hm⟩ := ih
+    unfold step'
+    rename_i s0 _
+    cases h : step s0 op with
+    | none => exact ⟨hI, hO, hm⟩
+    | some r => exact ⟨(step_invT _ hI op r h).1, step_invO _ hI hO op r h, by rw [(step_invT _ hI op r h).2, hm]⟩
+  | assign _ _ ihd ihs =>
+    obtain ⟨a1, a2, _, a4⟩ := assign_spec _ _ ihd.1 ihd.2.1 ihd.2.2 ihs.1 ihs.2.1 ihs.2.2
+    exact ⟨a1, a2, a4⟩
+  | insertAll _ _ ihd ihs =>
+    obtain ⟨a1, a2, _, a4⟩ := insertAll_spec _ _ ihd.1 ihd.2.1 ihd.2.2 ihs.2.1
+    exact ⟨a1, a2, a4⟩
+
+/-- **Invariant.**  After any history — also across containers — the tree is an AVL-balanced
+    search tree whose stored height/slope fields are correct, the size counter is the number of
+    entries and the prev/next list threads exactly the in-order sequence of the tree. -/
+theorem inv_reach {multi : Bool} {s : St} (hr : Reach multi s) : Inv s := by
+  obtain ⟨h, hO, hm⟩ := invs_reach hr
   refine ⟨h.avl, ?_, h.size, hO.order, hO.nodup⟩
   cases multi with
   | false => rw [hm]; exact h.sortedS hm
   | true => rw [hm]; exact h.sortedW
 
+/-- the invariant for the histories of one container -/
+theorem inv_run (multi : Bool) (ops : List Op) : Inv (run multi ops) := inv_reach (reach_run multi ops)
+
 /-- **Iteration** `begin() … end()` (a walk over the prev/next list) yields the in-order
     sequence of the tree — so everything said about `abs` below is about what iterators see. -/
+theorem iter_reach {multi : Bool} {s : St} (hr : Reach multi s) : s.iter = abs s :=
+  iter_eq_abs _ (invs_reach hr).2.1
+
 theorem iter_run (multi : Bool) (ops : List Op) : (run multi ops).iter = abs (run multi ops) :=
-  iter_eq_abs _ (invO_run multi ops)
+  iter_reach (reach_run multi ops)
 
 /-- Map iterates strictly ascending keys -/
-theorem sorted_run_map (ops : List Op) : (abs (run false ops)).Pairwise (fun a b => a.1 < b.1) := by
-  obtain ⟨h, hm⟩ := invT_run false ops
+theorem sorted_map {s : St} (hr : Reach false s) : (abs s).Pairwise (fun a b => a.1 < b.1) := by
+  obtain ⟨h, _, hm⟩ := invs_reach hr
   have := h.sortedS hm
   unfold SortedS at this
   simp only [abs, kv, List.pairwise_map]
   exact this
 
 /-- MultiMap iterates ascending keys -/
-theorem sorted_run_multi (ops : List Op) : (abs (run true ops)).Pairwise (fun a b => a.1 ≤ b.1) := by
-  obtain ⟨h, _⟩ := invT_run true ops
+theorem sorted_multi {s : St} (hr : Reach true s) : (abs s).Pairwise (fun a b => a.1 ≤ b.1) := by
+  obtain ⟨h, _, _⟩ := invs_reach hr
   have := h.sortedW
   unfold SortedW at this
   simp only [abs, kv, List.pairwise_map]
   exact this
 
-/-- an op covered by the deterministic part of the specification: everything except the hinted
-    insert of a MultiMap (whose position inside a run of equal keys the code leaves to the tree shape) -/
-def Op.det (multi : Bool) : Op → Bool
-  | .insertAt _ _ _ => !multi
-  | _ => true
+theorem sorted_run_multi (ops : List Op) : (abs (run true ops)).Pairwise (fun a b => a.1 ≤ b.1) :=
+  sorted_multi (reach_run true ops)
 
 /-- the specification run: a rejected op leaves the list unchanged -/
 def Spec.run (multi : Bool) (ops : List Op) : List Spec.KV :=
@@ -102,18 +142,12 @@ def Spec.run (multi : Bool) (ops : List Op) : List Spec.KV :=
 /-- **Refinement, one step from any reachable state**: the op is accepted iff the specification
     accepts it, the contents follow the specification, and the returned value (iterator position,
     `contains`, `count`, `front`/`back` value) is the specified one. -/
-theorem refines_step (multi : Bool) (ops : List Op) (op : Op) (hd : op.det multi = true) :
-    match step (run multi ops) op with
-    | some r => ∃ xs' ret, Spec.stepF multi (abs (run multi ops)) op = some (xs', ret) ∧ abs r.1 = xs' ∧
-                  r.2.ret = ret
-    | none => Spec.stepF multi (abs (run multi ops)) op = none := by
-  obtain ⟨h, hm⟩ := invT_run multi ops
-  have := step_full (run multi ops) h (invO_run multi ops) op (by
-    intro p k v ⟨h1, h2⟩
-    rw [hm] at h1; subst h1; subst h2
-    simp [Op.det] at hd)
-  rw [hm] at this
-  exact this
+theorem refines_step {multi : Bool} {s : St} (hr : Reach multi s) (op : Op) (hd : op.det multi = true) :
+    match step s op with
+    | some r => ∃ xs' ret, Spec.stepF multi (abs s) op = some (xs', ret) ∧ abs r.1 = xs' ∧ r.2.ret = ret
+    | none => Spec.stepF multi (abs s) op = none := by
+  obtain ⟨hI, hO, hm⟩ := invs_reach hr
+  exact g_refines_step multi s hI hO hm op hd
 
 /-- **Refinement of the contents**: the in-order sequence of the tree after any history of
     deterministic ops is the reference sorted list after the same history. -/
@@ -154,114 +188,93 @@ theorem refines (multi : Bool) (ops : List Op) (hd : ∀ op ∈ ops, op.det mult
     the hint if `prev.key ≤ k < hint.key`; directly behind it if `hint.key ≤ k < next.key` or the hint
     is the last entry; behind the hint inside the run of keys equal to `k` if `k = next.key`; otherwise
     where a plain insert puts it) and the returned iterator is that position. -/
-theorem refines_hint_multi (ops : List Op) (p : Nat) (k v : Int) (hp : p ≤ (run true ops).size) :
-    ∃ r q, step (run true ops) (.insertAt p k v) = some r ∧
-      abs r.1 = (abs (run true ops)).take q ++ (k, v) :: (abs (run true ops)).drop q ∧
-      Spec.HintPos (abs (run true ops)) p k q ∧ r.2.ret = .it q := by
-  obtain ⟨h, hm⟩ := invT_run true ops
-  obtain ⟨r, q, h1, h2, h3, h4⟩ := insertAt_multi_spec _ h (invO_run true ops) hm p k v hp
-  exact ⟨r, q, by simp only [step, hp, if_true]; exact h1, h2, h3, h4⟩
-
-/-- the observable outcome of a step: `none` = rejected, else (contents after, returned value) -/
-def outcome (s : St) (op : Op) : Option (List Spec.KV × Ret) :=
-  (step s op).map (fun r => (abs r.1, r.2.ret))
+theorem refines_hint_multi {s : St} (hr : Reach true s) (p : Nat) (k v : Int) (hp : p ≤ s.size) :
+    ∃ r q, step s (.insertAt p k v) = some r ∧
+      abs r.1 = (abs s).take q ++ (k, v) :: (abs s).drop q ∧
+      Spec.HintPos (abs s) p k q ∧ r.2.ret = .it q := by
+  obtain ⟨hI, hO, hm⟩ := invs_reach hr
+  exact g_refines_hint_multi s hI hO hm p k v hp
 
 /-- **Refinement, complete**: from every reachable state every op — including the hinted MultiMap
-    insert — takes a step of the specification `Spec.Step`. -/
-theorem refines_rel (multi : Bool) (ops : List Op) (op : Op) :
-    Spec.Step multi (abs (run multi ops)) op (outcome (run multi ops) op) := by
-  obtain ⟨h, hm⟩ := invT_run multi ops
-  cases hd : op.det multi with
-  | true =>
-    have hdet : ∀ p k v, ¬ (multi = true ∧ op = .insertAt p k v) := by
-      intro p k v ⟨h1, h2⟩; subst h1; subst h2; simp [Op.det] at hd
-    have := refines_step multi ops op hd
-    have e : outcome (run multi ops) op = Spec.stepF multi (abs (run multi ops)) op := by
-      unfold outcome
-      cases hs : step (run multi ops) op with
-      | none => rw [hs] at this; simp only at this; rw [this]; rfl
-      | some r =>
-        rw [hs] at this
-        obtain ⟨xs', ret, h1, h2, h3⟩ := this
-        rw [h1, ← h2, ← h3]; rfl
-    rw [e]; exact Spec.Step.det op hdet
-  | false =>
-    cases op with
-    | insertAt p k v =>
-      have hmt : multi = true := by cases multi <;> simp [Op.det] at hd ⊢
-      subst hmt
-      have hlen := abs_length _ h
-      by_cases hp : p ≤ (run true ops).size
-      · obtain ⟨r, q, h1, h2, h3, h4⟩ := refines_hint_multi ops p k v hp
-        have e : outcome (run true ops) (.insertAt p k v)
-            = some ((abs (run true ops)).take q ++ (k, v) :: (abs (run true ops)).drop q, .it q) := by
-          unfold outcome; rw [h1]; simp only [Option.map_some]; rw [h2, h4]
-        rw [e]; exact Spec.Step.hint p k v q rfl (by omega) h3
-      · have e : outcome (run true ops) (.insertAt p k v) = none := by
-          unfold outcome; simp only [step, hp, if_false, Option.map_none]
-        rw [e]; exact Spec.Step.hintReject p k v rfl (by omega)
-    | insert k v => simp [Op.det] at hd
-    | removeKey k => simp [Op.det] at hd
-    | removeAt p => simp [Op.det] at hd
-    | removeFront => simp [Op.det] at hd
-    | removeBack => simp [Op.det] at hd
-    | clear => simp [Op.det] at hd
-    | find k => simp [Op.det] at hd
-    | contains k => simp [Op.det] at hd
-    | count k => simp [Op.det] at hd
-    | front => simp [Op.det] at hd
-    | back => simp [Op.det] at hd
+    insert — takes a step of the specification `Spec.Step` (`outcome` = rejected, or contents after
+    the op and the returned value). -/
+theorem refines_rel {multi : Bool} {s : St} (hr : Reach multi s) (op : Op) :
+    Spec.Step multi (abs s) op (outcome s op) := by
+  obtain ⟨hI, hO, hm⟩ := invs_reach hr
+  exact g_refines_rel multi s hI hO hm op
+
+/-- histories of the specification, started from the contents `xs` -/
+inductive Spec.RunsFrom (multi : Bool) : List Spec.KV → List Op → List Spec.KV → Prop
+  | nil (xs : List Spec.KV) : Spec.RunsFrom multi xs [] xs
+  | cons {xs ys : List Spec.KV} {ops : List Op} (op : Op) (res : Option (List Spec.KV × Ret)) :
+      Spec.Step multi xs op res →
+      Spec.RunsFrom multi (match res with | some r => r.1 | none => xs) ops ys →
+      Spec.RunsFrom multi xs (op :: ops) ys
+
+/-- **Refinement of whole histories** (all ops, from any reachable state): the contents after
+    running a history on the model are contents the specification reaches by the same history. -/
+theorem refines_run_rel {multi : Bool} {s : St} (hr : Reach multi s) (ops : List Op) :
+    Spec.RunsFrom multi (abs s) ops (abs (ops.foldl step' s)) := by
+  induction ops generalizing s with
+  | nil => exact Spec.RunsFrom.nil _
+  | cons op ops ih =>
+    have hstep := refines_rel hr op
+    have e : abs (step' s op) = (match outcome s op with | some r => r.1 | none => abs s) := by
+      unfold step' outcome
+      cases step s op <;> rfl
+    have := ih (Reach.step op hr)
+    rw [e] at this
+    exact Spec.RunsFrom.cons op _ hstep this
+
+/-- **Copy**: after `dst = src` between two Maps, `dst` holds exactly the entries of `src`. -/
+theorem copy_spec {d s : St} (hd : Reach false d) (hs : Reach false s) :
+    abs (d.assignFrom s).1 = abs s := by
+  obtain ⟨a1, a2, a3⟩ := invs_reach hd
+  obtain ⟨b1, b2, b3⟩ := invs_reach hs
+  exact (assign_spec d s a1 a2 a3 b1 b2 b3).2.2.1
+
+/-- **Bulk insert**: after `dst.insert(src)` between two Maps, `dst` holds what plain inserts of
+    all entries of `src` (in iteration order) into `dst` give. -/
+theorem bulk_insert_spec {d s : St} (hd : Reach false d) (hs : Reach false s) :
+    abs (d.insertAll s).1 = (abs s).foldl (fun acc e => Spec.insertMap e.1 e.2 acc) (abs d) := by
+  obtain ⟨a1, a2, a3⟩ := invs_reach hd
+  obtain ⟨_, b2, _⟩ := invs_reach hs
+  exact (insertAll_spec d s a1 a2 a3 b2).2.2.1
 
 /-- **Lookup cost**: `find` makes at most two key comparisons per level of the tree. -/
-theorem find_cost (multi : Bool) (ops : List Op) (k : Int) :
-    (run multi ops).findCmps k ≤ 2 * (run multi ops).t.height := by
-  unfold St.findCmps
-  split
-  · exact findMCmps_le k _
-  · exact findCmps_le k _
+theorem find_cost {multi : Bool} {s : St} (hr : Reach multi s) (k : Int) : s.findCmps k ≤ 2 * s.t.height := by
+  obtain ⟨hI, hO, hm⟩ := invs_reach hr
+  exact g_find_cost multi s hI hO hm k
 
 /-- **Height bound**: `height ≤ 1.4405·log2(n+2)`, written without reals
     (`h ≤ 1.4405·log2(n+2)  ⇔  2^(h/1.4405) ≤ n+2  ⇔  2^(10000 h) ≤ (n+2)^14405`). -/
-theorem height_log (multi : Bool) (ops : List Op) :
-    2 ^ (10000 * (run multi ops).t.height) ≤ ((run multi ops).size + 2) ^ 14405 := by
-  obtain ⟨h, _⟩ := invT_run multi ops
-  rw [h.size]
-  exact Tree.height_log _ h.avl
-
-/-- `H = ⌊1.4405·log2(n+2)⌋`, characterised without reals -/
-def IsLogBound (n H : Nat) : Prop :=
-  2 ^ (10000 * H) ≤ (n + 2) ^ 14405 ∧ (n + 2) ^ 14405 < 2 ^ (10000 * (H + 1))
+theorem height_log {multi : Bool} {s : St} (hr : Reach multi s) :
+    2 ^ (10000 * s.t.height) ≤ (s.size + 2) ^ 14405 := by
+  obtain ⟨hI, hO, hm⟩ := invs_reach hr
+  exact g_height_log multi s hI hO hm
 
 /-- **The property's sentence**: finding any key among `n` entries needs at most
-    `2·⌊1.4405·log2(n+2)⌋` key comparisons — for every history and every key. -/
-theorem find_cost_log (multi : Bool) (ops : List Op) (k : Int) (H : Nat)
-    (hH : IsLogBound (run multi ops).size H) : (run multi ops).findCmps k ≤ 2 * H := by
-  have h1 := find_cost multi ops k
-  have h2 := height_log multi ops
-  have h3 : 2 ^ (10000 * (run multi ops).t.height) < 2 ^ (10000 * (H + 1)) := Nat.lt_of_le_of_lt h2 hH.2
-  have h4 := (Nat.pow_lt_pow_iff_right (by omega : 1 < 2)).mp h3
-  omega
+    `2·⌊1.4405·log2(n+2)⌋` key comparisons — in every reachable state, for every key.
+    (`IsLogBound n H` says `H = ⌊1.4405·log2(n+2)⌋` without reals.) -/
+theorem find_cost_log {multi : Bool} {s : St} (hr : Reach multi s) (k : Int) (H : Nat)
+    (hH : IsLogBound s.size H) : s.findCmps k ≤ 2 * H := by
+  obtain ⟨hI, hO, hm⟩ := invs_reach hr
+  exact g_find_cost_log multi s hI hO hm k H hH
+
+/-- the same for the histories of one container -/
+theorem find_cost_log_run (multi : Bool) (ops : List Op) (k : Int) (H : Nat)
+    (hH : IsLogBound (run multi ops).size H) : (run multi ops).findCmps k ≤ 2 * H :=
+  find_cost_log (reach_run multi ops) k H hH
 
 /-- the comparison count the `find` op of the model reports is the one bounded above -/
 theorem find_op_cmps (s : St) (k : Int) : ∃ r, step s (.find k) = some r ∧ r.2.cmps = s.findCmps k :=
   ⟨_, rfl, rfl⟩
 
 /-- **MultiMap::count** (with fixes/avl/01+02) equals the number of entries with that key. -/
-theorem count_correct (ops : List Op) (k : Int) :
-    ∃ r, step (run true ops) (.count k) = some r ∧ r.2.ret = .num (Spec.count k (abs (run true ops))) ∧
-      r.1 = run true ops := by
-  have := refines_step true ops (.count k) rfl
-  have hm := (invT_run true ops).2
-  cases h : step (run true ops) (.count k) with
-  | none => rw [h] at this; simp [Spec.stepF] at this
-  | some r =>
-    rw [h] at this
-    obtain ⟨xs', ret, h1, h2, h3⟩ := this
-    simp only [Spec.stepF, if_true, Option.some.injEq, Prod.mk.injEq] at h1
-    refine ⟨r, rfl, ?_, ?_⟩
-    · rw [h3, ← h1.2]
-    · simp only [step, hm, if_true] at h
-      split at h <;> (simp only [Option.some.injEq] at h; rw [← h])
+theorem count_correct {s : St} (hr : Reach true s) (k : Int) :
+    ∃ r, step s (.count k) = some r ∧ r.2.ret = .num (Spec.count k (abs s)) ∧ r.1 = s := by
+  obtain ⟨hI, hO, hm⟩ := invs_reach hr
+  exact g_count_correct s hI hO hm k
 
 /-- **MultiMap stability**: a plain insert puts the entry behind every entry with a key `≤ k`
     (in particular behind all equal keys inserted before) and in front of every larger key. -/
@@ -318,5 +331,16 @@ example : abs (run true [.insert 5 1, .insert 5 2, .insert 3 9, .insert 5 3]) = 
   decide +kernel
 example : ∃ r, step (run true [.insert 5 1, .insert 5 2, .insert 5 3]) (.count 5) = some r ∧ r.2.ret = .num 3 :=
   ⟨_, rfl, by decide +kernel⟩
+/-- a hinted MultiMap insert in the case the code leaves to the tree shape: hint = second `5`,
+    key = `5` = key behind the hint; the entry lands at position 3 (allowed: 2..3) -/
+example : (outcome (run true [.insert 5 1, .insert 5 2, .insert 5 3]) (.insertAt 1 5 4)) =
+    some ([(5, 1), (5, 2), (5, 3), (5, 4)], .it 3) := by decide +kernel
+example : Spec.HintPos [(5, 1), (5, 2), (5, 3)] 1 5 3 := by
+  simp [Spec.HintPos, Spec.upper]
+/-- copy and bulk insert between two reachable Maps -/
+example : abs ((run false [.insert 9 1]).assignFrom (run false sampleOps)).1 = abs (run false sampleOps) := by
+  decide +kernel
+example : abs ((run false [.insert 9 1, .insert 3 0]).insertAll (run false sampleOps)).1
+    = [(1, 10), (2, 20), (3, 30), (5, 50), (6, 60), (7, 70), (8, 80), (9, 1)] := by decide +kernel
 
 end Nstd.Avl
